@@ -7,6 +7,13 @@ ROOT = os.path.dirname(os.path.dirname(os.path.abspath(__file__)))
 ALL = ["C%02d" % i for i in range(1, 20)]
 
 CHECKS = {
+    "C16": {
+        "spec": "specs/Decorators.tla + DecoratorsTrace.tla",
+        "text": "Decorators.tla models a stack of PoolDecorator / Logger / Standardiser / Buffer layers: a demand write travels top-down (each Logger reads its target, emits one record, forwards), reads have the Standardiser's resynchronisation side effect. TLC checks transparency and record formulas over all stacks of depth <= 3 (thorough 4) and all histories to a bounded depth, generates behaviours by simulation, and validates traces of real stacks with capturing handlers (record fields at emission, target state before the write, fields re-read after the write, logger name and level, pool write counts, template validation).",
+        "note": "Standardiser layers with default parameters, Buffer layers not running; integer demands, fitness in quarters.",
+        "design": "5/C16, 4.12",
+        "technique": "TLA+ model checking (TLC) + TLC-simulated behaviours replayed on real decorator stacks + trace validation",
+    },
     "C09": {
         "spec": "specs/Periodic.tla (EXTENDS Controllers.tla) + PeriodicTrace.tla",
         "text": "Periodic.tla models the six shipped services under a discrete clock (eighths of a second): wake-ups, environment actions before / on / after period boundaries in either order at equal instants. TLC checks OncePerInterval, NeverRaises, LinearDrift, the two Buffer formulas and FactoryAdjusts (plus C08's step formulas) on the model, generates timed behaviours by simulation, and validates traces recorded from the real run() methods under trio's MockClock, where every iteration is observed through its time-stamped accesses to the recording pool.",
